@@ -24,11 +24,11 @@ Print Assumptions logql_log_sound_complete_refuted.
    (a permutation of all matching lines without limit; a top-L set in the query direction with limit L),
    each line carrying its own stream's labels. Line filters and label filters are covered in full. *)
 Theorem logql_log_partial :
-  forall re_match parse_float (tie : forall A : Type, list A -> list A),
+  forall re_match parse_float json_get hash_labels (tie : forall A : Type, list A -> list A),
     (forall A (l : list A), Permutation (tie A l) l) ->
     forall q c d, in_fragment q = true -> oracle_ok re_match parse_float q -> ctx_ok c = true -> db_ok c d ->
     width_guard q = true -> absent_guard re_match q d ->
-    log_correct re_match parse_float tie q c d.
+    log_correct re_match parse_float json_get hash_labels tie q c d.
 Proof. exact logql_log_partial_proof. Qed.
 Print Assumptions logql_log_partial.
 
@@ -66,27 +66,32 @@ Print Assumptions limit_topk.
 (* the fp_sel CTE of StreamSelectPlanner, evaluated by SqlEval, returns exactly the fingerprints for
    which every matcher is witnessed by a label-index row inside the date / type bounds *)
 Theorem fp_sel_correct :
-  forall re_match parse_float (tie : forall A : Type, list A -> list A) c d, ctx_ok c = true ->
+  forall re_match parse_float json_get hash_labels (tie : forall A : Type, list A -> list A) c d, ctx_ok c = true ->
   forall ms, ms <> [] -> (List.length ms <= 64)%nat ->
-    esel re_match parse_float tie (to_sqldb c d) (stream_select c ms) = Some (map fp_row (fp_sel_list re_match c d ms))
+    esel re_match parse_float json_get hash_labels tie (to_sqldb c d) (stream_select c ms) = Some (map fp_row (fp_sel_list re_match c d ms))
     /\ forall fp, (List.In fp (fp_sel_list re_match c d ms) <->
          forall m, List.In m ms -> exists g, List.In g (d_gin d) /\ g_fp g = fp /\ (from_day (c_from_ns c) <= g_day g)%Z
                                         /\ type_in c (g_type g) = true /\ clause_b re_match m (g_key g) (g_val g) = true).
 Proof.
-  intros re_match parse_float tie c d Hctx ms Hne Hlen. split.
+  intros re_match parse_float json_get hash_labels tie c d Hctx ms Hne Hlen. split.
   - now apply es_stream_select.
   - intros fp. now apply fp_sel_list_in.
 Qed.
 Print Assumptions fp_sel_correct.
 
 (* every line-filter predicate the planner emits (like / notLike / ilike / notILike / match == 1 / == 0)
-   means the LogQL line filter, for all four operators, on every line *)
+   means the LogQL line filter, for all four operators, on every row that carries the line text under the
+   names `samples.string` and `string` *)
 Theorem line_filter_correct :
-  forall re_match parse_float (tie : forall A : Type, list A -> list A) c d op val re_lit x g,
+  forall re_match parse_float json_get hash_labels (tie : forall A : Type, list A -> list A) c d op val re_lit r g line,
+    lookup "samples.string" r = Some (VStr line) /\ lookup "string" r = Some (VStr line) ->
     stage_oracle_ok re_match parse_float (PLineFilter op val re_lit) ->
-    ev re_match parse_float tie (to_sqldb c d) (line_filter_clause op val re_lit) (senv x :: g)
-    = Some (vbool (line_ok re_match (x_line x) op val)).
-Proof. intros re_match parse_float tie c d op val re_lit x g H. exact (ev_lft_clause re_match parse_float tie c d (op, val, re_lit) x g H). Qed.
+    ev re_match parse_float json_get hash_labels tie (to_sqldb c d) (line_filter_clause op val re_lit) (r :: g)
+    = Some (vbool (line_ok re_match line op val)).
+Proof.
+  intros re_match parse_float json_get hash_labels tie c d op val re_lit r g line Hr H.
+  exact (ev_lft_clause re_match parse_float json_get hash_labels tie c d (op, val, re_lit) r g line Hr H).
+Qed.
 Print Assumptions line_filter_correct.
 
 (* the hypotheses of logql_log_partial are met by an ordinary query (two matchers, |= and !~ line filters,
@@ -96,7 +101,7 @@ Theorem logql_log_partial_guards_met :
   in_fragment ex_query = true /\ oracle_ok no_re no_float ex_query /\ ctx_ok ex_ctx = true /\ db_ok ex_ctx w_db
   /\ width_guard ex_query = true /\ absent_guard no_re ex_query w_db
   /\ exists sel, log_select ex_query ex_ctx = Some sel
-       /\ option_map (map row_out) (eval no_re no_float LogqlSemProofs.tie_id (to_sqldb ex_ctx w_db) sel)
+       /\ option_map (map row_out) (eval no_re no_float no_json no_hash LogqlSemProofs.tie_id (to_sqldb ex_ctx w_db) sel)
           = Some [Some {| o_fp := 7; o_labels := [("b", "1")]; o_line := "hello"; o_ts := 1700000000000000005 |}].
 Proof. exact partial_guards_met. Qed.
 Print Assumptions logql_log_partial_guards_met.
@@ -111,7 +116,14 @@ Print Assumptions spec_oracle_decides.
 (* a selector with nine matchers selects its series (it returned nothing before fix 052673d) *)
 Theorem nine_matchers_select :
   exists sel, log_select w9_query w_ctx = Some sel
-    /\ option_map (map row_out) (eval no_re no_float LogqlSemProofs.tie_id (to_sqldb w_ctx w9_db) sel)
+    /\ option_map (map row_out) (eval no_re no_float no_json no_hash LogqlSemProofs.tie_id (to_sqldb w_ctx w9_db) sel)
        = Some [Some {| o_fp := 7; o_labels := ts_labels w9_series; o_line := "hello"; o_ts := 1700000000000000005 |}].
 Proof. exact LogqlSemProofs.nine_matchers_select. Qed.
 Print Assumptions nine_matchers_select.
+
+(* ... and the same for the whole SQL-planned pipeline (json parameters, drop, filters in any order) *)
+Theorem spec_oracle2_decides : forall re_match parse_float json_get hash_labels q c d res,
+  sem2_b re_match parse_float json_get hash_labels q c d res = true
+  <-> logql_sem2 re_match parse_float json_get hash_labels q c d res.
+Proof. exact sem2_b_iff. Qed.
+Print Assumptions spec_oracle2_decides.
